@@ -54,6 +54,11 @@ type c15Case struct {
 	ExtraKeys uint64 `json:"extra_keys,omitempty"`
 	// Bulk > 0: comment lines make the file so large that its last group begins behind that byte offset
 	Bulk int `json:"bulk,omitempty"`
+	// FileName (valid files): the name of the policy file instead of policy.yml; JSONForm: its content is the policy
+	// marshalled with encoding/json under the key "seccomp" (JSON is YAML's flow style; the documented way to write a
+	// policy from a program). What a file means does not depend on what it is called.
+	FileName string `json:"file_name,omitempty"`
+	JSONForm bool   `json:"json_form,omitempty"`
 	// Nested (valid files): the sandbox command is itself started by a sandbox command whose policy allows everything
 	// except sync(2): the process that loads the file's policy already runs under a filter, as in a container
 	Nested bool `json:"nested,omitempty"`
@@ -123,11 +128,18 @@ func drawC15(t *rapid.T) c15Case {
 			c.Env = append(c.Env, all[rapid.IntRange(0, len(all)-1).Draw(t, "env")])
 		}
 	}
+	if c.Defect == "" && rapid.IntRange(0, 3).Draw(t, "fileName") == 0 {
+		c.FileName = []string{"policy.yaml", "policy.json", "POLICY.JSON", "policy.Json", "policy", "policy.txt", "policy.conf", "policy.toml", "policy.yml.bak", "p.json.yml", ".json", "policy.js", "policy.xml", "policy.ini"}[rapid.IntRange(0, 13).Draw(t, "name")]
+		c.JSONForm = rapid.Bool().Draw(t, "jsonForm")
+	}
 	c.Nested = c.Defect == "" && rapid.IntRange(0, 4).Draw(t, "nested") == 0
 	if rapid.IntRange(0, 7).Draw(t, "bulk") == 0 {
 		c.Bulk = []int{65536, 65536, 131072, 1 << 20}[rapid.IntRange(0, 3).Draw(t, "bulkSize")]
 	}
-	if c.Defect == "" && rapid.IntRange(0, 3).Draw(t, "extraKeys") == 0 {
+	if c.JSONForm {
+		c.Bulk = 0 // (the bulk is made of comment lines)
+	}
+	if c.Defect == "" && !c.JSONForm && rapid.IntRange(0, 3).Draw(t, "extraKeys") == 0 {
 		c.ExtraKeys = rapid.Uint64Range(1, 1<<40).Draw(t, "extraKeySeed")
 	}
 	switch rapid.IntRange(0, 3).Draw(t, "mode") {
@@ -249,6 +261,12 @@ func c15PolicyTextBase(c *c15Case) (text string, writeFile bool) {
 		p.Groups = append(p.Groups, g)
 	}
 	text = cfgwriter.YAML(&p, c.Spelling)
+	if c.JSONForm && c.Defect == "" && c.ExtraKeys == 0 {
+		b, err := json.Marshal(map[string]any{"seccomp": p.ToSeccomp()})
+		if err == nil {
+			return string(b) + "\n", true
+		}
+	}
 	if c.ExtraKeys != 0 && c.Defect == "" {
 		text = cfgwriter.YAMLExtra(&p, c.Spelling, func(gi int) string { return c15ExtraKey(c.ExtraKeys, gi) })
 	}
@@ -315,7 +333,7 @@ func c15PolicyTextBase(c *c15Case) (text string, writeFile bool) {
 	case "unknown-default-action":
 		i := pick(func(l string) bool { return strings.Contains(l, "default_action:") })
 		if i >= 0 {
-			lines[i] = strings.SplitN(lines[i], "default_action:", 2)[0] + "default_action: " + []string{"user_notif", "deny", "0"}[c.Pos%3]
+			lines[i] = strings.SplitN(lines[i], "default_action:", 2)[0] + "default_action: " + []string{"permit", "deny", "0"}[c.Pos%3]
 		}
 	case "unknown-operation":
 		i := pick(func(l string) bool { return strings.Contains(l, "operation:") })
@@ -411,6 +429,9 @@ func runSandbox(c *c15Case, text string, writeFile bool) (*c15Run, error) {
 	defer os.RemoveAll(dir)
 	os.Chmod(dir, 0o777)
 	policyPath := filepath.Join(dir, "policy.yml")
+	if c.FileName != "" && c.Defect == "" {
+		policyPath = filepath.Join(dir, c.FileName)
+	}
 	if writeFile {
 		if err := os.WriteFile(policyPath, []byte(text), 0o644); err != nil {
 			return nil, err
@@ -572,6 +593,13 @@ func checkC15(raw json.RawMessage) (ev.Result, error) {
 	res.Classes = append(res.Classes, "valid")
 	if c.Bulk > 0 {
 		res.Classes = append(res.Classes, "policy-file-larger-than-64KiB")
+	}
+	if c.FileName != "" {
+		form := "yaml"
+		if c.JSONForm && c.ExtraKeys == 0 {
+			form = "json"
+		}
+		res.Classes = append(res.Classes, "policy-file-named:"+c.FileName, "policy-file-name-extension:"+strings.ToLower(filepath.Ext(c.FileName))+"/content:"+form)
 	}
 	if c.Nested && !c.DenyExec && c.NNPFlag == "" && (c.NNP || c.Uid == 0) {
 		res.Classes = append(res.Classes, "sandbox-started-under-an-enclosing-filter")
